@@ -471,6 +471,31 @@ class _Owner:
             p = par.get(n)
             if isinstance(p, ast.Assign) and id(p) in alias_stmts and p.value is n:
                 continue
+            # a NamedTuple unpacked into all of its fields:  a, b, c = self._state
+            if (
+                self.b.is_namedtuple and isinstance(p, ast.Assign) and p.value is n and len(p.targets) == 1
+                and isinstance(p.targets[0], (ast.Tuple, ast.List)) and len(p.targets[0].elts) == len(self.b.fields)
+                and all(isinstance(e, ast.Name) for e in p.targets[0].elts)
+            ):
+                # one plain assignment per field, in field order (so that each
+                # local is a simple alias of one attribute)
+                new_stmts = []
+                for tgt, (fld, *_rest) in zip(p.targets[0].elts, self.b.fields):
+                    a_ = ast.Assign(
+                        targets=[ast.copy_location(ast.Name(tgt.id, ast.Store()), tgt)],
+                        value=ast.copy_location(ast.Attribute(ast.copy_location(ast.Name(me, ast.Load()), n), self.fname(fld), ast.Load()), n),
+                        type_comment=None,
+                    )
+                    new_stmts.append(ast.copy_location(a_, p))
+                holder = par.get(p)
+                placed = False
+                for field, val in ast.iter_fields(holder):
+                    if isinstance(val, list) and any(x is p for x in val):
+                        i = [k for k, x in enumerate(val) if x is p][0]
+                        val[i:i + 1] = new_stmts
+                        placed = True
+                if placed:
+                    continue
             raise _Abort("bundle object used as a whole (escapes)")
         # drop alias statements
         if aliases:
@@ -633,12 +658,33 @@ class _Owner:
         self.cls.body = body
 
 
-def _candidates(tree: ast.Module):
-    """(owner class, attribute, bundle class node) triples of a module."""
+def _candidates(tree: ast.Module, rel: str | None = None, all_trees: dict | None = None, foreign: dict | None = None):
+    """(owner class, attribute, bundle class node) triples of a module.
+    ``foreign`` receives {bundle class name: module file} for bundle classes
+    that are imported from another module of the package."""
     privates = {
         n.name: n for n in tree.body
         if isinstance(n, ast.ClassDef) and n.name.startswith("_") and not n.name.startswith("__")
     }
+    if rel is not None and all_trees:
+        from .imports_canon import _abs_module
+
+        for st in tree.body:
+            if not isinstance(st, ast.ImportFrom):
+                continue
+            mod = _abs_module(rel, st.module, st.level)
+            for cand in (mod.replace(".", "/") + ".py", mod.replace(".", "/") + "/__init__.py"):
+                t2 = all_trees.get(cand)
+                if t2 is None or cand == rel:
+                    continue
+                for a in st.names:
+                    if a.asname or not a.name.startswith("_") or a.name.startswith("__") or a.name in privates:
+                        continue
+                    cdef = next((n for n in t2.body if isinstance(n, ast.ClassDef) and n.name == a.name), None)
+                    if cdef is not None:
+                        privates[a.name] = copy.deepcopy(cdef)
+                        if foreign is not None:
+                            foreign[a.name] = cand
     if not privates:
         return []
     # private module-level functions every return of which constructs one
@@ -1028,7 +1074,7 @@ def unbundle(sources: dict[str, str]):
             continue
     # package-wide passes first (API evolution folded back, see api_fold.py)
     global_notes: dict[str, list[str]] = {}
-    for gpass in (api_fold.unencapsulate, api_fold.fold_aliases, api_fold.pull_down_new_bases):
+    for gpass in (api_fold.pull_down_new_bases, api_fold.unencapsulate, api_fold.fold_aliases):
         for r2, ns2 in gpass(all_trees).items():
             global_notes.setdefault(r2, []).extend(ns2)
     for rel, src in sources.items():
@@ -1043,10 +1089,13 @@ def unbundle(sources: dict[str, str]):
         if ns or touched:
             dealiased[rel] = ns or ["names folded back (see the defining module)"]
             trees[rel] = tree
-        elif "class _" in src:
-            trees[rel] = tree
+        elif "class _" in src or any(
+            isinstance(st_, ast.ImportFrom) and any(a_.name[:1] == "_" and a_.name[1:2].isupper() for a_ in st_.names) for st_ in tree.body
+        ):
+            trees[rel] = tree  # may own a private bundle class (its own, or one imported from a sibling module)
     for rel, tree in trees.items():
-        cands = _candidates(tree)
+        foreign: dict[str, str] = {}
+        cands = _candidates(tree, rel, all_trees, foreign)
         changed = False
         if rel in dealiased:
             changed = True
@@ -1096,6 +1145,10 @@ def unbundle(sources: dict[str, str]):
                         raise _Abort("a use of the bundle attribute was not rewritten")
                 for plan in outside_plans or []:
                     plan()
+                if bnode.name in foreign:
+                    # the copied members need the names their own module provides
+                    used_ = {x.id for x in ast.walk(cls) if isinstance(x, ast.Name) and isinstance(x.ctx, ast.Load)}
+                    api_fold.import_names_from(all_trees, rel, foreign[bnode.name], used_, skip={bnode.name})
                 ast.fix_missing_locations(tree)
                 changed = True
                 notes.append(f"{label}: replaced by {len(b.fields)} attributes {attr}{SEP}<field>"
